@@ -71,6 +71,7 @@ func (db *Database) SearchWithPipelineOptions(query string, options SearchOption
 	if options.Limit <= 0 {
 		options.Limit = constants.DefaultSearchLimit
 	}
+	options.Limit = clampLimit(options.Limit, len(db.Commands))
 
 	queryWords := strings.Fields(strings.ToLower(query))
 	results := make([]SearchResult, 0, utils.Min(len(db.Commands), options.Limit*constants.ResultsBufferMultiplier))
@@ -99,6 +100,16 @@ func (db *Database) SearchWithPipelineOptions(query string, options SearchOption
 	}
 
 	return db.sortAndLimitResults(results, options.Limit)
+}
+
+// clampLimit caps a result limit at the number of commands: a larger limit cannot
+// return more, and the buffer and window sizes derived from it (limit*2, *3, *5)
+// would overflow for huge values.
+func clampLimit(limit, numCommands int) int {
+	if limit > numCommands {
+		return numCommands
+	}
+	return limit
 }
 
 // sortAndLimitResults sorts results by score and applies limit
